@@ -425,7 +425,7 @@ pub fn ref_traverse(g: &RefGraph, origin: i64, kind: Kind, conds: &[QueryConditi
         return Ok(out);
     }
     let reverse = kind.is_reverse();
-    let mut examine = |id: i64, d: u64, out: &mut Vec<Visit>| -> Result<bool, Undefined> {
+    let examine = |id: i64, d: u64, out: &mut Vec<Visit>| -> Result<bool, Undefined> {
         let ev = eval_conditions(&EvalCtx { g, readings, distance: Some(d) }, id, conds)?;
         out.push(Visit { id, distance: d, selected: ev.sel });
         Ok(ev.ctl == Ctl::Continue)
